@@ -395,6 +395,14 @@ func PolicyLocality(p *core.Program, r *core.Report, rule string) {
 			continue
 		}
 		why, ok := allowed[core.RefName(fd.Obj)]
+		if !ok {
+			// a helper extracted from a reviewed function since the reference (its only caller), or a function that absorbed one
+			for _, owner := range SiteOwners(p, fd) {
+				if w2, ok2 := allowed[owner[strings.LastIndex(owner, ".")+1:]]; ok2 {
+					why, ok = w2+" (code moved: reviewed as part of "+owner+")", true
+				}
+			}
+		}
 		r.Check(ok, rule, fd.Key()+": touches the NetworkPolicy store", p.Pos(mention), why,
 			"the NetworkPolicy store is read outside the selection function and the IP partition: policies that do not select a pod could influence its connections (locality)")
 	}
